@@ -956,11 +956,15 @@ func (g *c14Gen) compound(depth int) c12Op {
 			for i, n := 0, r.Intn(4); i < n; i++ {
 				switch r.Intn(4) {
 				case 0:
-					its = append(its, c12VoR{IsRef: true, Ref: pick(r, []string{"name", "keep.x", "nokey", "xs", "tmplv"})})
+					its = append(its, c12VoR{IsRef: true, Ref: pick(r, []string{"name", "keep.x", "nokey", "xs", "tmplv", "padded", "blank"})})
 				case 1:
 					its = append(its, c12VoR{Val: g.ref()})
 				default:
-					its = append(its, c12VoR{Val: g.fresh("i")})
+					it := g.fresh("i")
+					if r.Intn(4) == 0 {
+						it = pick(r, []string{" " + it, it + " ", it + "\n", "\u00a0" + it, " ", strings.ToUpper(it)}) // the item as it is
+					}
+					its = append(its, c12VoR{Val: it})
 				}
 			}
 			op.Items = &its
@@ -1028,7 +1032,9 @@ func c14RandData() W {
 		"cfg": map[string]any{"mode": "m1"}, "xs": []any{"a", 2, true, "d"}, "deep": map[string]any{"er": map[string]any{"xs": []any{"p", nil, "q"}}},
 		"qpath": "xs", "empty": []any{}, "one": map[string]any{"only": 1}, "tmplv": "{{ .name }}",
 		// lists with null entries (items like any other) and a null leaf
-		"ns": []any{nil, "u", nil, false}, "nul": nil})
+		"ns": []any{nil, "u", nil, false}, "nul": nil,
+		// leaves whose text has white space around it / is nothing but white space (items given by reference)
+		"padded": "  p \n", "blank": " "})
 }
 
 // ---------------------------------------------------------------- run
